@@ -1,1 +1,2 @@
 import JaqalProofs.Props.C15
+import JaqalProofs.Props.C03
